@@ -259,7 +259,7 @@ def main(argv=None):
                 # a pristine process: the SUT's answer depends on something the simulator does not own (object addresses, thread
                 # timing inside the SUT, ...). That is still a violation of "a function of the history only"; it is reported
                 # as such, flagged unreproducible, with the full history in the replay file.
-                path = os.path.join(VERIF, 'replays', f'{prop}-s{verif_seed}-{tier}-r{idx}-{key[0]}-{_slug(key[1])}.json')
+                path = os.path.join(VERIF, 'replays', f'{prop}-s{verif_seed}-{tier}-r{idx}-{key[0]}-{_slug(key[1])}-p{os.getpid()}.json')
                 with open(path, 'w') as f:
                     json.dump({'property': prop, 'verif_seed': verif_seed, 'tier': tier, 'run_index': idx, 'expected': signature(v0),
                                'detail': v0.get('detail'), 'op_index': v0.get('op_index'), 'trace_digest': r0.get('digest'), 'reproducible': False,
@@ -289,7 +289,7 @@ def main(argv=None):
                 tests += t
         rr = last(prelude + [plan])
         vmin = rr.get('violation') or v0
-        path = os.path.join(VERIF, 'replays', f'{prop}-s{verif_seed}-{tier}-r{idx}-{key[0]}-{_slug(key[1])}.json')
+        path = os.path.join(VERIF, 'replays', f'{prop}-s{verif_seed}-{tier}-r{idx}-{key[0]}-{_slug(key[1])}-p{os.getpid()}.json')
         with open(path, 'w') as f:
             json.dump({'property': prop, 'verif_seed': verif_seed, 'tier': tier, 'run_index': idx,
                        'expected': signature(vmin), 'detail': vmin.get('detail'), 'op_index': vmin.get('op_index'),
